@@ -691,3 +691,15 @@ def gen_vsem(rng, tier):
                 ops.append((7,))
         out.append("vsem %d %d %d %s" % (kind, L, len(ops), " ".join(" ".join(map(str, o)) for o in ops)))
     return out
+
+
+# err kind L fault pos
+def gen_err(rng, tier):
+    out = []
+    for kind in (0, 1):
+        for L in (0, 3):
+            for fault in range(1, 27):
+                poss = range(0, 9) if tier == "thorough" else sorted(set([0, 8, rng.randrange(1, 8), rng.randrange(1, 8)]))
+                for pos in poss:
+                    out.append("err %d %d %d %d" % (kind, L, fault, pos))
+    return out
